@@ -26,7 +26,7 @@ func Run(c *core.Ctx) int {
 	}
 	var jobs []job
 	// (1) hand-written dynamic-reachability template with seed-derived constants
-	nt := c.N(4, 40)
+	nt := c.N(4, 20)
 	for i := 0; i < nt; i++ {
 		r := c.Rand(fmt.Sprint("tmpl", i))
 		src := dceMain
@@ -42,7 +42,7 @@ func Run(c *core.Ctx) int {
 		jobs = append(jobs, job{&core.Program{Name: "c05/panic-init/" + pi.Name, Files: files}, "panic-init"})
 	}
 	// (3) generated programs
-	ng := c.N(24, 600)
+	ng := c.N(24, 300)
 	for i := 0; i < ng; i++ {
 		r := c.Rand(fmt.Sprint("gen", i))
 		p := progen.Generate(r, progen.Options{Cases: 8 + r.Intn(8), StmtsPer: 6 + r.Intn(8), BoxStruct: true})
